@@ -91,6 +91,13 @@ CHECKS["C20"] = ("exploration", "immutability monitor: every delivered request/r
     "1-8 parallel connections (bare server-kind channel, bare client-kind channel, real client/server pair) exchange 6-25 back-to-back single- and multi-chunk messages with large byte strings and strings in all modes; all delivered objects are kept and must re-encode identically at every later checkpoint.",
     "changes are observed through re-encoding of the delivered objects", "3/C20")
 
+CHECKS["C10"] = ("exploration", "replay monitor: verbatim copies (single and runs) of earlier chunks injected on established secured channels of the real server and the real client; conservation oracle over the recorded history (value = last fresh write, one response per request id, each call gets the response sealed for it)",
+    "The independent client holds a Sign / SignAndEncrypt session on the real server, writes unique values and re-sends byte-identical copies of earlier Write chunks at random positions; the node value (inspected in-process) must never return to a replayed value and no request may be answered twice. The scripted server replays earlier response chunks to the real client.",
+    "a server that gives up the channel after a replay is accepted", "3/C10")
+CHECKS["C11"] = ("exploration", "arrival-order sequence monitor at the decrypting independent peer under concurrent senders, renewals and hook-point delays (incl. a sender parked across a renewal), both directions, counters placed just below the wrap",
+    "Concurrent senders on one real client-kind channel with explicit renewals against the scripted server, and the real server's read/publish responses against the renewing independent client; the peer's arrival-order log must show +1 per chunk (or the wrap) and no interleaving of multi-chunk messages. Evidence lists hook-point hits and runs with a sender parked across a renewal.",
+    "arrival order on a TCP connection = order of writes; hook delays only at points where pre-emption is possible anyway", "3/C11")
+
 NOT_YET = {}
 
 
